@@ -189,8 +189,16 @@ Definition same_mset_p (l1 l2 : list (bytes * N)) : bool :=
   Nat.eqb (List.length l1) (List.length l2)
   && forallb (fun x => Nat.eqb (List.length (filter (pair_eqb x) l1)) (List.length (filter (pair_eqb x) l2))) l1.
 
+Definition same_set_p (l1 l2 : list (bytes * N)) : bool :=
+  forallb (fun x => existsb (pair_eqb x) l2) l1 && forallb (fun x => existsb (pair_eqb x) l1) l2.
+
+(* the playlist parser attaches a rendition to a variant once per line read, so a master playlist
+   yields its rendition URIs several times: children of a playlist are compared as a set *)
 Definition pdiff (c : pcase) : bool :=
-  negb (same_mset_p (post_children (pc_in c)) (pc_children c)
+  negb ((match p_doc (pc_in c) with
+         | PM3u8 _ => same_set_p (post_children (pc_in c)) (pc_children c)
+         | _ => same_mset_p (post_children (pc_in c)) (pc_children c)
+         end)
         && same_mset_p (post_outlinks (pc_in c)) (pc_outlinks c)).
 
 Definition pmon_hops (c : pcase) : bool :=
@@ -202,5 +210,7 @@ Definition pmon_planted (c : pcase) : bool :=
   negb (p_body (pc_in c))
   || (inclb (pc_kids c) (map fst (pc_children c))
       && (if (p_hops (pc_in c) <? p_maxhops (pc_in c))%N then inclb (pc_outs c) (map fst (pc_outlinks c)) else true)).
+(* the document reaches post-processing at all: the archiver kept its body *)
+Definition pmon_body (c : pcase) : bool := p_body (pc_in c).
 Definition pdiffs (l : list pcase) := bad_idx pdiff l.
-Definition pmons (l : list pcase) := mon_idx [pmon_hops; pmon_guard; pmon_planted] l.
+Definition pmons (l : list pcase) := mon_idx [pmon_hops; pmon_guard; pmon_planted; pmon_body] l.
